@@ -402,6 +402,14 @@ class CSSImportRule(cssrule.CSSRule):
                 if 'name' == typ:
                     self._seq[i] = (name, typ, item.line, item.col)
                     break
+            else:
+                # a rule parsed without a name has no item for it yet
+                if name:
+                    seq = self._tempSeq()
+                    for item in self.seq:
+                        seq.appendItem(item)
+                    seq.append(name, 'name')
+                    self._setSeq(seq)
 
             # set title of imported sheet
             if self.styleSheet:
